@@ -147,6 +147,13 @@ func Load(repo, trustedDir string, only map[string]bool) (*Loader, error) {
 		}
 		if len(p.Errors) == 0 && p.Types != nil && p.TypesInfo != nil {
 			prog.CreatePackage(p.Types, p.Syntax, p.TypesInfo, true)
+		} else if !l.inRepo(p.PkgPath) && p.Types != nil {
+			// an ill-typed third-party package (github.com/flynn/u2f/u2fhid needs cgo/libudev): created without
+			// syntax so that packages importing it can be built; its functions have no bodies (unknown calls)
+			func() {
+				defer func() { recover() }()
+				prog.CreatePackage(p.Types, nil, nil, true)
+			}()
 		} else if l.inRepo(p.PkgPath) {
 			for _, e := range p.Errors {
 				l.loadErrors = append(l.loadErrors, e.Error())
